@@ -26,6 +26,8 @@ CONTROLS = [
     ("KeepPublishAfterPubrec", "MC_Resume_quick", "Inv_C17"),
     ("ResendReversed", "MC_Resume_quick", "Inv_C17"),
     ("ResendWithoutDup", "MC_Resume_quick", "Inv_C17"),
+    ("KeepSenderOnDrop", "MC_Live", "Live_C14"),
+    ("NoWakeOnComplete", "MC_Live", "Live_C16"),
     ("PendingAfterShortRead", "MC_Framing_quick", "NoLostWakeup"),
     ("EofOnZeroRead", "MC_Framing_quick", "NoEarlyEnd"),
 ]
@@ -34,8 +36,13 @@ def run(dev, cfg, inv):
     src = open(os.path.join(SPEC, cfg + ".cfg")).read()
     tmp = "NEG_%s" % dev
     src = src.replace("Dev = {}", 'Dev = {"%s"}' % dev)
-    # a deviation is only required to break its own invariant: check that one only
-    src = re.sub(r"INVARIANTS.*", "INVARIANTS " + inv, src)
+    # a deviation is only required to break its own invariant / liveness property: check that one only
+    if inv.startswith("Live_") or inv == "AllEmitted":
+        src = re.sub(r"INVARIANTS.*", "INVARIANTS TypeOK", src)
+        src = re.sub(r"PROPERTIES.*", "PROPERTIES " + inv, src)
+    else:
+        src = re.sub(r"INVARIANTS.*", "INVARIANTS " + inv, src)
+        src = re.sub(r"PROPERTIES.*\n", "", src)
     open(os.path.join(SPEC, tmp + ".cfg"), "w").write(src)
     md = "/verif/out/md/" + tmp
     t0 = time.time()
@@ -43,7 +50,7 @@ def run(dev, cfg, inv):
                        cwd=SPEC, stdout=subprocess.PIPE, stderr=subprocess.STDOUT, text=True)
     os.remove(os.path.join(SPEC, tmp + ".cfg"))
     subprocess.run(["rm", "-rf", md])
-    m = re.search(r"Invariant (\S+) is violated", r.stdout)
+    m = re.search(r"Invariant (\S+) is violated", r.stdout) or re.search(r"Temporal property (\S+) was violated", r.stdout)
     depth = len(re.findall(r"^State \d+:", r.stdout, re.M))
     return (m.group(1) if m else None), depth, time.time() - t0
 ok = True
